@@ -1,5 +1,8 @@
 
 import numpy as np
+
+from ...util import hashobj
+
 from .ancillary_feature import AncillaryFeature
 
 
@@ -91,7 +94,13 @@ def has_ml_scores(mm):
         # this ML score. But this use case is basically non-existent and
         # the performance impact is probably negligible.
         candidates = AncillaryFeature.get_instances(feat)
-        idlist.append((feat, [c.hash(mm) for c in candidates]))
+        if candidates:
+            idlist.append((feat, [c.hash(mm) for c in candidates]))
+        else:
+            # The score is not an ancillary feature (e.g. a temporary
+            # feature or data stored in a file). Hash the data, so that
+            # `ml_class` is recomputed when the score is replaced.
+            idlist.append((feat, hashobj(mm[feat])))
     return idlist
 
 
